@@ -8,6 +8,8 @@
   T4 kwrev   reverse the keyword-argument order of every call
   T5 augexp  `x += e` -> `x = x + e`   (names only)
   T6 lockexp `with lock: body` -> `lock.acquire(); try: body finally: lock.release()`
+  T7 cmpflip `a < b` -> `b > a` (also == and !=)
+  T8 rettemp `return e` -> `t = e; return t`
 
 usage: tools/equiv_sweep.py [T1 T2 ...] [--by-module] [--prop CNN]
 A VIOLATION under an equivalence transformation is a false alarm of the checker; an
@@ -117,8 +119,39 @@ class LockExp(ast.NodeTransformer):
         return node
 
 
+class CmpFlip(ast.NodeTransformer):
+    FLIP = {ast.Lt: ast.Gt, ast.Gt: ast.Lt, ast.LtE: ast.GtE, ast.GtE: ast.LtE, ast.Eq: ast.Eq, ast.NotEq: ast.NotEq}
+
+    def visit_Compare(self, node):
+        self.generic_visit(node)
+        if len(node.ops) == 1 and type(node.ops[0]) in self.FLIP:
+            return ast.Compare(left=node.comparators[0], ops=[self.FLIP[type(node.ops[0])]()], comparators=[node.left])
+        return node
+
+
+class RetTemp(ast.NodeTransformer):
+    def _blk(self, stmts):
+        out = []
+        for s in stmts:
+            if isinstance(s, ast.Return) and s.value is not None and not isinstance(s.value, (ast.Name, ast.Constant)):
+                out.append(ast.Assign(targets=[ast.Name(id='ret_value_t', ctx=ast.Store())], value=s.value))
+                out.append(ast.Return(value=ast.Name(id='ret_value_t', ctx=ast.Load())))
+            else:
+                out.append(s)
+        return out
+
+    def generic_visit(self, node):
+        super().generic_visit(node)
+        for f in ('body', 'orelse', 'finalbody'):
+            b = getattr(node, f, None)
+            if isinstance(b, list) and b and isinstance(b[0], ast.stmt):
+                setattr(node, f, self._blk(b))
+        return node
+
+
 TRANSFORMS = {'T1': ('alpha-rename locals', Alpha), 'T2': ('if/else swap', IfSwap), 'T3': ('insert pass', PassIns),
-              'T4': ('reverse keywords', KwRev), 'T5': ('expand augmented assignment', AugExp), 'T6': ('expand with-lock', LockExp)}
+              'T4': ('reverse keywords', KwRev), 'T5': ('expand augmented assignment', AugExp), 'T6': ('expand with-lock', LockExp),
+              'T7': ('flip comparison operands', CmpFlip), 'T8': ('return through a temporary', RetTemp)}
 
 
 def transform(src, cls):
